@@ -1929,4 +1929,236 @@ theorem precompute_aggregate_mean_var (nC g : Nat) (ntr : List (Nat × Nat))
     rw [hn, ← List.length_map (f := fun cell : CellRec => cell.vals.getD j 0)]
     simpa [List.map_map, Function.comp_def] using this
 
+
+/-! ### the finer rule of `merge_precompute_files` -/
+
+/-- `dst` row against `src` row: replaced only if strictly more cells -/
+def pickRow (d s : Row) : Row := if s.n > d.n then s else d
+
+theorem scan_first_max : ∀ (L : List Row) (d : Row), ∃ (p : Nat) (row : Row),
+    (d :: L)[p]? = some row ∧ L.foldl pickRow d = row ∧
+      ∀ (q : Nat) (row' : Row), (d :: L)[q]? = some row' →
+        row'.n ≤ row.n ∧ (q < p → row'.n < row.n) := by
+  intro L
+  induction L with
+  | nil =>
+    intro d
+    refine ⟨0, d, rfl, rfl, fun q row' h => ?_⟩
+    cases q with
+    | zero => simp at h; subst h; simp
+    | succ q => simp at h
+  | cons s L ih =>
+    intro d
+    obtain ⟨p', row, h1, h2, h3⟩ := ih (pickRow d s)
+    have hpick := h3 0 (pickRow d s) rfl
+    have hd : d.n ≤ (pickRow d s).n := by unfold pickRow; split <;> omega
+    have hs : s.n ≤ (pickRow d s).n := by unfold pickRow; split <;> omega
+    cases p' with
+    | zero =>
+      simp only [List.getElem?_cons_zero, Option.some.injEq] at h1
+      by_cases hgt : s.n > d.n
+      · have hrow : row = s := by rw [← h1]; simp [pickRow, hgt]
+        refine ⟨1, row, by simp [hrow], h2, fun q row' h => ?_⟩
+        cases q with
+        | zero =>
+          simp only [List.getElem?_cons_zero, Option.some.injEq] at h; subst h
+          rw [hrow]; omega
+        | succ q =>
+          cases q with
+          | zero =>
+            simp only [List.getElem?_cons_succ, List.getElem?_cons_zero, Option.some.injEq] at h
+            subst h; rw [hrow]; omega
+          | succ q =>
+            have := h3 (q + 1) row' (by simpa using h)
+            exact ⟨this.1, fun hq => by omega⟩
+      · have hrow : row = d := by rw [← h1]; simp [pickRow, hgt]
+        refine ⟨0, row, by simp [hrow], h2, fun q row' h => ?_⟩
+        cases q with
+        | zero =>
+          simp only [List.getElem?_cons_zero, Option.some.injEq] at h; subst h
+          rw [hrow]; omega
+        | succ q =>
+          cases q with
+          | zero =>
+            simp only [List.getElem?_cons_succ, List.getElem?_cons_zero, Option.some.injEq] at h
+            subst h; rw [hrow]; omega
+          | succ q =>
+            have := h3 (q + 1) row' (by simpa using h)
+            exact ⟨this.1, fun hq => by omega⟩
+    | succ p' =>
+      have hlt := (hpick.2 (by omega))
+      refine ⟨p' + 2, row, by simpa using h1, h2, fun q row' h => ?_⟩
+      cases q with
+      | zero =>
+        simp only [List.getElem?_cons_zero, Option.some.injEq] at h; subst h
+        exact ⟨by omega, fun _ => by omega⟩
+      | succ q =>
+        cases q with
+        | zero =>
+          simp only [List.getElem?_cons_succ, List.getElem?_cons_zero, Option.some.injEq] at h
+          subst h
+          exact ⟨by omega, fun _ => by omega⟩
+        | succ q =>
+          have := h3 (q + 1) row' (by simpa using h)
+          exact ⟨this.1, fun hq => this.2 (by omega)⟩
+
+theorem foldl_replaceWhereMore_row (nC r : Nat) (hr : r < nC) :
+    ∀ (others : List Buffer) (start : Buffer), start.length = nC →
+      (∀ f ∈ others, f.length = nC) →
+      (others.foldl replaceWhereMore start).length = nC ∧
+      (others.foldl replaceWhereMore start)[r]?
+        = some ((others.map (fun f => f.getD r Row.empty)).foldl pickRow (start.getD r Row.empty)) := by
+  intro others
+  induction others with
+  | nil =>
+    intro start hs _
+    exact ⟨hs, by simp [List.getD_eq_getElem?_getD, hs, hr]⟩
+  | cons o others ih =>
+    intro start hs hlen
+    have ho : o.length = nC := hlen o (by simp)
+    have hs' : (replaceWhereMore start o).length = nC := by
+      rw [replaceWhereMore_length]; omega
+    obtain ⟨h1, h2⟩ := ih (replaceWhereMore start o) hs' (fun f hf => hlen f (by simp [hf]))
+    refine ⟨h1, ?_⟩
+    have hd : start[r]? = some (start.getD r Row.empty) := by
+      simp [List.getD_eq_getElem?_getD, hs, hr]
+    have hso : o[r]? = some (o.getD r Row.empty) := by
+      simp [List.getD_eq_getElem?_getD, ho, hr]
+    have hrep := replaceWhereMore_getElem? start o r _ _ hd hso
+    have : (replaceWhereMore start o).getD r Row.empty
+        = pickRow (start.getD r Row.empty) (o.getD r Row.empty) := by
+      rw [List.getD_eq_getElem?_getD, hrep]; rfl
+    simp only [List.foldl_cons, List.map_cons, h2, this]
+
+theorem zipIdx_filter_ne_all {α : Type} : ∀ (l : List α) (i0 k : Nat), k < i0 →
+    ((l.zipIdx i0).filter (fun p => p.2 != k)).map (·.1) = l := by
+  intro l
+  induction l with
+  | nil => intro _ _ _; rfl
+  | cons a l ih =>
+    intro i0 k hk
+    have : (i0 != k) = true := by simp; omega
+    simp [List.zipIdx_cons, this, ih (i0 + 1) k (by omega)]
+
+theorem zipIdx_filter_ne_eraseIdx {α : Type} : ∀ (l : List α) (i0 k : Nat),
+    ((l.zipIdx i0).filter (fun p => p.2 != k + i0)).map (·.1) = l.eraseIdx k := by
+  intro l
+  induction l with
+  | nil => intro _ _; rfl
+  | cons a l ih =>
+    intro i0 k
+    cases k with
+    | zero =>
+      have : (i0 != 0 + i0) = false := by simp
+      simp only [List.zipIdx_cons, List.filter_cons, this, List.eraseIdx_cons_zero]
+      simpa using zipIdx_filter_ne_all l (i0 + 1) i0 (by omega)
+    | succ k =>
+      have h1 : (i0 != k + (i0 + 1)) = true := by simp; omega
+      have h2 : k + 1 + i0 = k + (i0 + 1) := by omega
+      rw [h2]
+      simp only [List.zipIdx_cons, List.filter_cons, h1, if_true, List.map_cons,
+        List.eraseIdx_cons_succ, ih (i0 + 1) k]
+
+/-- `k` is the first index of `l` with the largest total -/
+def FirstLargest (l : List Buffer) (k tot : Nat) : Prop :=
+  (∃ s, l[k]? = some s ∧ totalCells s = tot) ∧ (∀ f ∈ l, totalCells f ≤ tot) ∧
+    ∀ (i : Nat) (fi : Buffer), i < k → l[i]? = some fi → totalCells fi < tot
+
+theorem mostIdx_spec : ∀ (bs pre : List Buffer) (best tot : Nat), FirstLargest pre best tot →
+    ∃ tot', FirstLargest (pre ++ bs) (mostIdx bs pre.length best tot) tot' := by
+  intro bs
+  induction bs with
+  | nil => intro pre best tot h; exact ⟨tot, by simpa [mostIdx] using h⟩
+  | cons b bs ih =>
+    intro pre best tot h
+    obtain ⟨⟨s, hs, hst⟩, hmax, hfirst⟩ := h
+    have hbest : best < pre.length := by
+      by_contra hn
+      rw [List.getElem?_eq_none (by omega)] at hs
+      exact absurd hs (by simp)
+    simp only [mostIdx]
+    have happ : pre ++ b :: bs = (pre ++ [b]) ++ bs := by simp
+    have hlen : pre.length + 1 = (pre ++ [b]).length := by simp
+    split
+    · rename_i hgt
+      rw [happ, hlen]
+      apply ih
+      refine ⟨⟨b, by simp, rfl⟩, ?_, ?_⟩
+      · intro f hf
+        simp only [List.mem_append, List.mem_singleton] at hf
+        rcases hf with hf | rfl
+        · have := hmax f hf; omega
+        · omega
+      · intro i fi hi hfi
+        rw [List.getElem?_append_left hi] at hfi
+        have := hmax fi (List.mem_of_getElem? hfi); omega
+    · rename_i hgt
+      rw [happ, hlen]
+      apply ih
+      refine ⟨⟨s, by rw [List.getElem?_append_left hbest]; exact hs, hst⟩, ?_, ?_⟩
+      · intro f hf
+        simp only [List.mem_append, List.mem_singleton] at hf
+        rcases hf with hf | rfl
+        · exact hmax f hf
+        · omega
+      · intro i fi hi hfi
+        rw [List.getElem?_append_left (by omega)] at hfi
+        exact hfirst i fi hi hfi
+
+theorem mergeMax_tie_rule (nC : Nat) (files : List Buffer) (hne : files ≠ [])
+    (hlen : ∀ f ∈ files, f.length = nC) :
+    ∃ (k : Nat) (start out : Buffer), files[k]? = some start ∧
+      (∀ f ∈ files, totalCells f ≤ totalCells start) ∧
+      (∀ (i : Nat) (fi : Buffer), i < k → files[i]? = some fi →
+        totalCells fi < totalCells start) ∧
+      mergeMax files = .ok out ∧
+      ∀ r : Nat, r < nC → ∃ (p : Nat) (fp : Buffer) (row : Row),
+        (start :: files.eraseIdx k)[p]? = some fp ∧ fp[r]? = some row ∧ out[r]? = some row ∧
+        ∀ (q : Nat) (fq : Buffer) (row' : Row), (start :: files.eraseIdx k)[q]? = some fq →
+          fq[r]? = some row' → row'.n ≤ row.n ∧ (q < p → row'.n < row.n) := by
+  cases files with
+  | nil => exact absurd rfl hne
+  | cons f0 rest =>
+    obtain ⟨tot', ⟨s, hs, hst⟩, hmax, hfirst⟩ := mostIdx_spec rest [f0] 0 (totalCells f0)
+      ⟨⟨f0, rfl, rfl⟩, by simp, by intro i fi hi; omega⟩
+    simp only [List.length_singleton, List.singleton_append] at hs hmax hfirst
+    generalize hkdef : mostIdx rest 1 0 (totalCells f0) = k at hs hmax hfirst
+    generalize hfiles : f0 :: rest = files at *
+    have hothers : ((files.zipIdx).filter (fun p => p.2 != k)).map (·.1) = files.eraseIdx k := by
+      simpa using zipIdx_filter_ne_eraseIdx files 0 k
+    have hsmem : s ∈ files := List.mem_of_getElem? hs
+    have herase : ∀ f ∈ files.eraseIdx k, f.length = nC :=
+      fun f hf => hlen f (List.mem_of_mem_eraseIdx hf)
+    refine ⟨k, s, (files.eraseIdx k).foldl replaceWhereMore s, hs,
+      fun f hf => by rw [hst]; exact hmax f hf,
+      fun i fi hi hfi => by rw [hst]; exact hfirst i fi hi hfi, ?_, fun r hr => ?_⟩
+    · subst hfiles
+      simp only [mergeMax, hkdef, hs, ← hothers, List.foldl_map]
+    · obtain ⟨_, hrow⟩ := foldl_replaceWhereMore_row nC r hr (files.eraseIdx k) s
+        (hlen s hsmem) herase
+      obtain ⟨p, row, h1, h2, h3⟩ := scan_first_max
+        ((files.eraseIdx k).map (fun f => f.getD r Row.empty)) (s.getD r Row.empty)
+      have hseq : ∀ (q : Nat),
+          (s.getD r Row.empty :: (files.eraseIdx k).map (fun f => f.getD r Row.empty))[q]?
+            = ((s :: files.eraseIdx k)[q]?).map (fun f => f.getD r Row.empty) := by
+        intro q
+        rw [← List.map_cons (f := fun f : Buffer => f.getD r Row.empty), List.getElem?_map]
+      have hget : ∀ f ∈ s :: files.eraseIdx k, f[r]? = some (f.getD r Row.empty) := by
+        intro f hf
+        have : f.length = nC := by
+          simp only [List.mem_cons] at hf
+          rcases hf with rfl | hf
+          · exact hlen _ hsmem
+          · exact herase f hf
+        simp [List.getD_eq_getElem?_getD, this, hr]
+      rw [hseq p] at h1
+      simp only [Option.map_eq_some_iff] at h1
+      obtain ⟨fp, hfp, hfprow⟩ := h1
+      refine ⟨p, fp, row, hfp, by rw [hget fp (List.mem_of_getElem? hfp), hfprow],
+        by rw [hrow, h2], fun q fq row' hfq hrow' => ?_⟩
+      apply h3 q row'
+      rw [hseq q, hfq]
+      rw [hget fq (List.mem_of_getElem? hfq)] at hrow'
+      simpa using hrow'
+
 end CTM.Stats
